@@ -1,6 +1,7 @@
 package rules
 
 import (
+	"go/constant"
 	"sort"
 	"strings"
 
@@ -19,9 +20,11 @@ func (c *Ctx) FilesUntouched(prop string) {
 	rule := "C03.O8 store.files-untouched"
 	mut := map[string]bool{"Rename": true, "Remove": true, "RemoveAll": true, "Truncate": true, "WriteFile": true, "Create": true, "CreateTemp": true,
 		"OpenFile": true, "Chmod": true, "Chown": true, "Link": true, "Symlink": true, "Mkdir": true, "MkdirAll": true, "MkdirTemp": true}
-	allowed := map[string]string{
-		"github.com/attestantio/dirk.exportSlashingProtection:os.WriteFile": "the interchange file the export command was asked to write",
-		"github.com/attestantio/dirk.initLogging:os.OpenFile":               "the configured log file, opened for appending",
+	// accepted by WHAT is written, not by where: the path is the value of one of these configuration keys (read through
+	// viper.GetString, possibly resolved by a module path helper, possibly handed down as a parameter)
+	allowedKeys := map[string]string{
+		"slashing-protection-file": "the interchange file the export command was asked to write",
+		"log-file":                 "the configured log file",
 	}
 	n := 0
 	var seen []string
@@ -51,15 +54,78 @@ func (c *Ctx) FilesUntouched(prop string) {
 			f := ci.Common().StaticCallee()
 			key := outer.String() + ":" + f.Pkg.Pkg.Path() + "." + f.Name()
 			n++
-			if why, ok := allowed[key]; ok {
-				seen = append(seen, key)
-				c.R.OK(rule, key, c.Pos(ci), "accepted: "+why)
+			cfg := ""
+			if len(ci.Common().Args) > 0 {
+				cfg = c.configKeyOf(ci.Common().Args[0], 0)
+			}
+			if why, ok := allowedKeys[cfg]; ok && f.Signature.Recv() == nil && (f.Name() == "WriteFile" || f.Name() == "OpenFile" || f.Name() == "Create") {
+				seen = append(seen, cfg)
+				c.R.OK(rule, key, c.Pos(ci), "accepted: "+why+" (path = configuration key "+cfg+")")
 			} else {
 				c.R.Fail(rule, key, c.Pos(ci), "production code changes the file system directly ("+f.Pkg.Pkg.Path()+"."+f.Name()+"): files of the slashing-protection database are badger's alone - setting a value log aside, removing or recreating a directory loses records that were acknowledged", "file-system mutations only: the export's interchange file, the log file", nil)
 			}
 		}
 	}
 	sort.Strings(seen)
-	c.R.Floor(rule, "file-system mutating calls in production code (the accepted table must be seen)", len(seen), 2)
+	c.R.Floor(rule, "file-system mutating calls in production code (the accepted table must be seen)", len(uniq(seen)), 2)
 	_ = n
+}
+
+// configKeyOf: the value is viper.GetString("<key>") - directly, through a module helper that resolves a path it is given,
+// or as a parameter every static caller fills that way: the key, else "".
+func (c *Ctx) configKeyOf(v ssa.Value, d int) string {
+	if d > 4 {
+		return ""
+	}
+	switch x := v.(type) {
+	case *ssa.Call:
+		f := x.Call.StaticCallee()
+		if f == nil {
+			return ""
+		}
+		if f.Pkg != nil && f.Pkg.Pkg.Path() == "github.com/spf13/viper" && f.Name() == "GetString" && len(x.Call.Args) == 1 {
+			if k, ok := x.Call.Args[0].(*ssa.Const); ok && k.Value != nil && k.Value.Kind() == constant.String {
+				return constant.StringVal(k.Value)
+			}
+			return ""
+		}
+		if prog.InModule(f) && len(x.Call.Args) == 1 && !x.Call.IsInvoke() {
+			return c.configKeyOf(x.Call.Args[0], d+1) // a path helper (util.ResolvePath)
+		}
+	case *ssa.Parameter:
+		fn := x.Parent()
+		idx := -1
+		for i, q := range fn.Params {
+			if q == x {
+				idx = i
+			}
+		}
+		key := ""
+		sites := c.staticCallers()[fn]
+		if idx < 0 || len(sites) == 0 {
+			return ""
+		}
+		for _, s := range sites {
+			if idx >= len(s.Common().Args) {
+				return ""
+			}
+			k := c.configKeyOf(s.Common().Args[idx], d+1)
+			if k == "" || (key != "" && k != key) {
+				return ""
+			}
+			key = k
+		}
+		return key
+	case *ssa.Phi:
+		key := ""
+		for _, e := range x.Edges {
+			k := c.configKeyOf(e, d+1)
+			if k == "" || (key != "" && k != key) {
+				return ""
+			}
+			key = k
+		}
+		return key
+	}
+	return ""
 }
